@@ -3,6 +3,7 @@
 //! which the Lean driver `mdriver` replays on the model.
 mod clog;
 mod codec;
+mod cstate;
 mod frame;
 mod tables;
 mod router;
@@ -22,6 +23,7 @@ fn main() {
         "topic" => topic::run(&opts),
         "router" => router::run(&opts),
         "clog" => clog::run(&opts),
+        "cstate" => cstate::run(&opts),
         "frame" => frame::run(&opts),
         "codec" => codec::run(&opts),
         "tables" => tables::run(&opts),
